@@ -27,6 +27,7 @@ THEOREMS = [
     "C17_chunking_irrelevant",
     "C17_cursor_text_roundtrip",
     "C17_reader_source_shape",
+    "C17_internal_filter",
 ]
 LEAN_TARGETS = ["WfProps.C17"]
 EXPLANATION = (
@@ -102,8 +103,10 @@ def gen_msg(rng: random.Random) -> tuple[str, str]:
                                    rng.randint(0x1, 0x1F), rng.randint(0x1F300, 0x1F64F)])) for _ in range(k)), "random"
 
 
-def gen_events(rng: random.Random) -> tuple[list[dict], str]:
-    n = rng.choice([0, 1, 1, 2, 2, 3, 3, 4, 5, 6])
+def gen_events(rng: random.Random, internal_p: float = 0.0) -> tuple[list[dict], str]:
+    """internal_p > 0: that share of the non-final events are InternalDispatchEvents (real
+    `UnhandledEvent`s, or hand-built envelopes naming the class as their type / among their types)"""
+    n = rng.choice([0, 1, 1, 2, 2, 3, 3, 4, 5, 6]) if not internal_p else rng.choice([1, 2, 3, 3, 4, 4, 5, 6, 7, 8])
     seq = 0 if rng.random() < 0.8 else rng.randint(1, 30)
     gaps = rng.random() < 0.2
     terminated = rng.random() < 0.75 and n > 0
@@ -118,6 +121,16 @@ def gen_events(rng: random.Random) -> tuple[list[dict], str]:
             ev["type"] = rng.choice(["Custom", "Évént", "Stop", "StopEventX"])
             ev["types"] = rng.choice([None, ["Base"], ["Événement"]])
             ev["qn"] = rng.choice([None, "pkg.mod.Custom"])
+        if internal_p and kind != "stop" and rng.random() < internal_p:
+            v = rng.random()
+            if v < 0.6:
+                ev["kind"] = "internal"
+            else:
+                ev["kind"] = "custom"
+                ev["type"] = "InternalDispatchEvent" if v < 0.7 else rng.choice(["StepStateChanged", "Custom", "InternalDispatchEventX"])
+                ev["types"] = None if v < 0.7 else rng.choice([["InternalDispatchEvent"], ["Base", "InternalDispatchEvent"],
+                                                                ["InternalDispatchEvent", "Base"]])
+                ev["qn"] = None
         evs.append(ev)
         seq += 1 + (rng.randint(0, 4) if gaps else 0)
     if terminated:
@@ -205,7 +218,21 @@ def gen_conns(rng: random.Random, evs: list[dict], payloads: list[str], c0: int,
 
 
 def gen_case(rng: random.Random, family: str = "mixed") -> dict:
+    if family == "internal":
+        # the include_internal filter: logs with hidden events at the start, between shown ones, at the end
+        evs, status = gen_events(rng, internal_p=rng.choice([0.3, 0.5, 0.8]))
+        incl = rng.random() < 0.3
+        case = _case_around(rng, evs, status, rng.choice(["mixed", "drops", "drops", "budget"]),
+                            shown=None if incl else [i for i, e in enumerate(evs) if not sse.is_internal(e)])
+        case["family"] = "internal"
+        case["incl"] = incl
+        return case
     evs, status = gen_events(rng)
+    return _case_around(rng, evs, status, family)
+
+
+def _case_around(rng: random.Random, evs: list[dict], status: str, family: str, shown: list[int] | None = None) -> dict:
+    """shown: indices of the events that produce a frame (drops are aimed at those frames)"""
     payloads = [sse.payload_of(e) for e in evs]
     seqs = [e["seq"] for e in evs]
     r = rng.random()
@@ -221,8 +248,10 @@ def gen_case(rng: random.Random, family: str = "mixed") -> dict:
         mx: Any = rng.choice([0, 1, 1, 2, 2, 3])
     else:
         mx = rng.choice([0, 1, 2, 3, 3, 4, 5, 5, "D"])
+    aim_evs = evs if shown is None else [evs[i] for i in shown]
+    aim_payloads = payloads if shown is None else [payloads[i] for i in shown]
     return {"events": evs, "status": status, "c0": c0, "max": mx, "hb": 5.0 if hb_on else None,
-            "conns": gen_conns(rng, evs, payloads, c0n, hb_on, family), "family": family}
+            "conns": gen_conns(rng, aim_evs, aim_payloads, c0n, hb_on, family), "family": family}
 
 
 # ---- a log that grows while the client streams
@@ -441,12 +470,20 @@ def op_line(case: dict, payloads: list[str], terminals: list[bool]) -> str:
         valid = ";".join(cps(v) for v in VALID_JSON)
         sd = "0"
     else:
-        evs = ";".join(f"{e['seq']}:{1 if t else 0}:{cps(p)}" for e, p, t in zip(case["events"], payloads, terminals))
+        evs = ev_tokens(case["events"], payloads, terminals)
         valid = ""
         sd = "1" if status_done(case) else "0"
+    # the trailing field is the include_internal flag the real client sends (its default: false)
+    incl = ["1" if case["incl"] else "0"] if "incl" in case else []
     if case.get("live"):
-        return "|".join(["live", str(case["max"]), str(case["c0"]), evs, valid, ";".join(live_conn_tok(case, c) for c in case["conns"])])
-    return "|".join(["run", str(case["max"]), str(case["c0"]), sd, evs, valid, ";".join(conn_tok(c) for c in case["conns"])])
+        return "|".join(["live", str(case["max"]), str(case["c0"]), evs, valid, ";".join(live_conn_tok(case, c) for c in case["conns"])] + incl)
+    return "|".join(["run", str(case["max"]), str(case["c0"]), sd, evs, valid, ";".join(conn_tok(c) for c in case["conns"])] + incl)
+
+
+def ev_tokens(evs: list[dict], payloads: list[str], terminals: list[bool]) -> str:
+    """`seq:terminal:codepoints`, with a fourth field `I` for an InternalDispatchEvent"""
+    return ";".join(f"{e['seq']}:{1 if t else 0}:{cps(p)}" + (":I" if sse.is_internal(e) else "")
+                    for e, p, t in zip(evs, payloads, terminals))
 
 
 def impl_line(case: dict, obs: dict, payloads: list[str]) -> str:
@@ -496,9 +533,12 @@ def monitor(case: dict, obs: dict, payloads: list[str], terminals: list[bool]) -
     evs = case["events"]
     c0 = -1 if case["c0"] == "D" else case["c0"]
     later = [i for i, e in enumerate(evs) if e["seq"] > c0]
+    # the consumer asked for internal events or not (client default: not); hidden ones must never be yielded
+    incl = bool(case.get("incl", False))
     expected: list[int] = []
     for i in later:
-        expected.append(i)
+        if incl or not sse.is_internal(evs[i]):
+            expected.append(i)
         if terminals[i]:
             break
     got: list[int] = []
@@ -507,6 +547,10 @@ def monitor(case: dict, obs: dict, payloads: list[str], terminals: list[bool]) -
         idx = payloads.index(dump) if dump in payloads else None
         if idx is None:
             res.append(Violation("C17/foreign-event", f"yielded an event that is not in the log: {dump[:120]!r}", case))
+            return res
+        if not incl and sse.is_internal(evs[idx]):
+            res.append(Violation("C17/internal-event-yielded", f"include_internal_events=False but the stream yielded the internal event "
+                                 f"with sequence {evs[idx]['seq']}", case))
             return res
         got.append(idx)
         if ls != evs[idx]["seq"]:
@@ -575,7 +619,10 @@ def run(env: Env) -> Outcome:
     out.rule = ("logs of 0-6 events (ASCII / multi-byte / str.splitlines characters / 1-20 kB payloads, gaps in sequences, with and "
                 "without a terminal event) x start cursor x max_reconnect_attempts 0..5 or default x scripts of refusals, drops aimed at "
                 "every part of a frame, timeouts, status codes x heartbeat schedules x random re-chunking; plus hand-written malformed "
-                "bodies; non-trivial = at least one reconnect and one event; distinct by case")
+                "bodies; plus logs that grow between the scripted connections and while a connection is open; plus logs with "
+                "InternalDispatchEvents (real UnhandledEvents, hand-built envelopes naming the class) under include_internal false/true; "
+                "plus the line iterator alone on arbitrary chunkings, int() and str() alone; "
+                "non-trivial = at least one reconnect and one event; distinct by case")
     rng = random.Random(env.rng.randrange(1 << 30))
     cases: list[dict] = []
     if env.replay is not None:
@@ -590,6 +637,8 @@ def run(env: Env) -> Outcome:
     rng_live = random.Random(rng.randrange(1 << 30))
     for _ in range(env.budget(450, 9000)):
         cases.append(gen_live_case(rng_live))
+    for _ in range(env.budget(400, 8000)):
+        cases.append(gen_case(rng_live, "internal"))
 
     ops: list[str] = []
     impl: list[str] = []
@@ -623,6 +672,14 @@ def run(env: Env) -> Outcome:
                 out.count("payload:" + e.get("cls", "corpus"))
             if case.get("hb"):
                 out.count("heartbeats:on")
+            if "incl" in case:
+                hid = [sse.is_internal(e) for e in case["events"]]
+                out.count("internal:include_internal=" + ("true" if case["incl"] else "false"))
+                out.count("internal:internal-events-in-log:%s" % (sum(hid) if sum(hid) < 4 else "4+"))
+                if hid and hid[-1]:
+                    out.count("internal:log-ends-with-internal-event")
+                if any(a and not b for a, b in zip(hid, hid[1:])):
+                    out.count("internal:internal-before-shown")
             if case.get("live"):
                 vs = [c["vis"] for c in case["conns"]]
                 out.count("live:appends-between-connections:%d" % min(3, sum(1 for a, b in zip(vs, vs[1:]) if b > a)))
@@ -657,6 +714,30 @@ def run(env: Env) -> Outcome:
         ops2.append("|".join(["serve", str(cur), "1" if status_done(case) else "0", evtok, ",".join(map(str, hb))]))
         impl2.append(f"status={st}" if body is None else f"stream closes={1 if closed else 0} body={cps(body)}")
         ctx.append({"framing": True, "events": evs, "status": status, "cursor": cur, "hb": hb, "hb_interval": case["hb"]})
+
+    # ---- framing with hidden events: what is framed, when the answer is 204, when the stream closes
+    rng_f = random.Random(rng.randrange(1 << 30))
+    for _ in range(env.budget(150, 2500)):
+        evs, status = gen_events(rng_f, internal_p=rng_f.choice([0.3, 0.5, 0.8]))
+        case = {"events": evs, "status": status, "hb": 5.0 if rng_f.random() < 0.4 else None, "incl": rng_f.random() < 0.3}
+        seqs = [e["seq"] for e in evs]
+        cur = rng_f.choice([-1, -1] + seqs + [rng_f.randint(-2, max(seqs) + 2)])
+        payloads = [sse.payload_of(e) for e in evs]
+        terminals = [sse.is_terminal(e) for e in evs]
+        nlater = len([s for s in seqs if s > cur])
+        nshown = len([e for e in evs if e["seq"] > cur and (case["incl"] or not sse.is_internal(e))])
+        hb = [rng_f.choice([0, 0, 1, 2]) for _ in range(nshown)] if case["hb"] else []
+        if not any(t and s > cur for t, s in zip(terminals, seqs)) and not (nlater == 0 and (status != "running" or terminals[-1])):
+            case["hb"] = None
+            hb = []
+        st, body, closed = sse.run_serve(case, str(cur), hb)
+        out.evaluations += 1
+        out.count("framing-internal:" + ("204" if st == 204 else ("empty-stream" if not body else "stream")))
+        out.count("framing-internal:include_internal=" + ("true" if case["incl"] else "false"))
+        ops2.append("|".join(["serve", str(cur), "1" if status_done(case) else "0", ev_tokens(evs, payloads, terminals),
+                              ",".join(map(str, hb)), "1" if case["incl"] else "0"]))
+        impl2.append(f"status={st}" if body is None else f"stream closes={1 if closed else 0} body={cps(body)}")
+        ctx.append({"framing": True, "events": evs, "status": status, "cursor": cur, "hb": hb, "hb_interval": case["hb"], "incl": case["incl"]})
 
     # ---- the client's line iterator alone: arbitrary chunkings, with and without a clean end
     ops3: list[str] = []
